@@ -31,6 +31,12 @@ CLAIMED = {
     "C08": ("exploration",
             "Deterministic simulation of proxyproto.Listener over the in-memory network (and, in a fifth of the runs, of the whole proxy with the PROXY protocol enabled): generated v1/v2 headers of every command x family, TLV tails, malformed/truncated/oversized headers, every segmentation down to single bytes, peers stalling before any header byte for less or more than the header timeout (fake clock) or forever, and several application goroutines calling Read/RemoteAddr/LocalAddr/Header/Write concurrently before the header arrives. Oracle: a reference parser written from the PROXY protocol specification decides accept(src,dst) / accept-local / reject / either; addresses never nil, payload byte-exact, failure no later than the timeout; a dead worker = crash.",
             "DESIGN.md 4 C08", "deterministic simulation (segmentation, stalls on the fake clock, concurrent callers) + independent PROXY v1/v2 reference parser"),
+    "C09": ("exploration",
+            "Deterministic simulation of the real HTTP/2 relay (h2.Config.Proxy, both directions, TLS on both legs) between scripted raw-frame endpoints that are conforming senders with their own ledgers: 1-4 concurrent streams each way, DATA of 0..16384 bytes with and without padding, initial windows from 0 to 1 MiB changed up and down midway, MAX_FRAME_SIZE up to 1 MiB, credit returned at once or lazily in small steps at scheduler-chosen moments; which frame is sent next is the tape's choice. Receiver ledger: granted credit (stream and connection) never overdrawn, decreases bound from the first drained quiescent point after the SETTINGS reached the relay; no frame above the largest announced MAX_FRAME_SIZE. Sender ledger: WINDOW_UPDATE increments received equal flow-controlled octets sent (padding included).",
+            "DESIGN.md 4 C09", "deterministic simulation with raw-frame endpoints + receiver-side and sender-side flow-control credit ledgers"),
+    "C10": ("exploration",
+            "Same relay world: header blocks from a few bytes to ~50 KiB split by the sender into HEADERS+CONTINUATION at arbitrary points, static and unique field names (HPACK table churn), HEADER_TABLE_SIZE settings, END_STREAM on HEADERS / last DATA / empty DATA / trailers, RST_STREAM, PRIORITY, PING, GOAWAY, on interleaved streams under small and changing windows. Per stream and direction the receiver's decoded history (its own hpack.Decoder) must equal the sender's, connection-level frames must be relayed, and after both endpoints re-open connection windows and then stream windows (by a SETTINGS increase alone) everything queued must arrive within the step budget.",
+            "DESIGN.md 4 C10", "deterministic simulation with raw-frame endpoints + per-stream decoded-history equality + bounded-step delivery after windows open"),
     "C11": ("exploration",
             "Deterministic simulation of HTTPProxy.Run with client connections in drawn phases (idle, served then idle, request at an origin with latency up to 120 s, head half sent, tunnel, response backed up against slow or dripping readers on tiny links, vanishing clients, requests and connections that first appear after shutdown began) on plain and TLS listeners; the shutdown request is a scheduler event that can fire at any step. History oracle over (origin log, shutdown event, Run return) stamped with global sequence numbers and simulated time, plus the simulator's socket ledger and the listener gauge: in-flight exchanges complete and are then closed, nothing first sent after the event reaches an origin, Run returns the context error within the drain limit and only with every accepted socket closed.",
             "DESIGN.md 4 C11", "deterministic simulation with shutdown as a scheduled event + history checks over recorded events, socket ledger"),
